@@ -80,7 +80,7 @@ def main():
     dst = f"/verif/seeded/{sid}"
     os.makedirs(dst, exist_ok=True)
     for f in ("patch.diff", "demo.py", "README.md"):
-        if os.path.exists(os.path.join(src, f)) and os.path.abspath(src) != os.path.abspath(dst):
+        if os.path.exists(os.path.join(src, f)) and os.path.realpath(src) != os.path.realpath(dst):
             shutil.copy(os.path.join(src, f), dst)
     meta["what_it_needs"] = "see README.md"
     with open(os.path.join(dst, "meta.json"), "w") as f:
